@@ -348,11 +348,13 @@ class kMinPathError(pathmodel.AbstractPathModelDAG):
         # gamma vars from https://helda.helsinki.fi/server/api/core/bitstreams/96693568-d973-4b43-a68f-bc796bbeb225/content
         # We will encode that edge_vars[(u,v,i)] * self.path_slacks_vars[(i)] = self.gamma_vars[(u,v,i)],
         # assuming self.w_max is a bound for self.path_slacks_vars[(i)]
+        # (gamma is the product of an edge variable and the - possibly scaled - slack: it needs the bound of the latter)
+        gamma_ub = max(self.w_max, slack_ub * max(self.path_length_factors)) if len(self.path_length_factors) > 0 else self.w_max
         self.gamma_vars = self.solver.add_variables(
             self.edge_indexes,
             name_prefix="gamma",
             lb=0,
-            ub=self.w_max,
+            ub=gamma_ub,
             var_type="continuous",
         )
 
@@ -449,7 +451,7 @@ class kMinPathError(pathmodel.AbstractPathModelDAG):
                         continuous_var=slack_var,
                         product_var=self.gamma_vars[(u, v, i)],
                         lb=0,
-                        ub=self.w_max,
+                        ub=gamma_ub,
                         name=f"12_u={u}_v={v}_i={i}",
                     )
 
@@ -497,11 +499,13 @@ class kMinPathError(pathmodel.AbstractPathModelDAG):
         # gamma vars from https://helda.helsinki.fi/server/api/core/bitstreams/96693568-d973-4b43-a68f-bc796bbeb225/content
         # We will encode that edge_vars[(u,v,i)] * self.path_slacks_vars[(i)] = self.gamma_vars[(u,v,i)],
         # assuming self.w_max is a bound for self.path_slacks_vars[(i)]
+        # (gamma is the product of an edge variable and the - possibly scaled - slack: it needs the bound of the latter)
+        gamma_ub = max(self.w_max, slack_ub * max(self.path_length_factors)) if len(self.path_length_factors) > 0 else self.w_max
         self.gamma_vars = self.solver.add_variables(
             self.edge_indexes,
             name_prefix="gamma",
             lb=0,
-            ub=self.w_max,
+            ub=gamma_ub,
             var_type="continuous",
         )
 
@@ -565,7 +569,7 @@ class kMinPathError(pathmodel.AbstractPathModelDAG):
                     continuous_var=slack_var,
                     product_var=self.gamma_vars[(u, v, i)],
                     lb=0,
-                    ub=self.w_max,
+                    ub=gamma_ub,
                     name=f"12_u={u}_v={v}_i={i}",
                 )
 
